@@ -33,6 +33,7 @@ class Contract:
         self.no_functional = False
         self.kinds = {}
         self.nullable = ()
+        self.known = []          # [(finding id, FunctionDef)] input regions of recorded known findings
 
 
 def _const_eval(node, ns):
@@ -107,6 +108,8 @@ def load_contracts(index, only_props=None):
                         c.decreases = st
                     elif n == 'raises_when':
                         c.raises_when = st
+                    elif n.startswith('known_'):
+                        c.known.append((n[len('known_'):], st))
                     elif n == 'canary':
                         c.canary = st
                     elif n.startswith('inv_'):
